@@ -210,6 +210,13 @@ theorem C31_fold (ps : List PathArg) :
     readPaths table ps = (allOk (sources ps)).map (fun cs => cs.foldl (merge table) (zero table)) :=
   readLoop_eq table ps (zero table)
 
+/-- a concrete reading: a directory listed out of order with a non-`.json` file and a
+sub-directory, and a failing read -/
+example :
+    readPaths table [.dir [⟨"b.json", false, some exB⟩, ⟨"a.json", false, some exA⟩, ⟨"c.txt", false, none⟩, ⟨"d.json", true, none⟩]]
+      = some (merge table (merge table (zero table) exA) exB) ∧
+    readPaths table [.file (some exA), .dir [⟨"x.json", false, none⟩]] = none := by decide
+
 /-! ## No side effects (heap view) -/
 
 /-- `MergeConfig` on a heap: every object that existed before the call — in particular
